@@ -527,10 +527,10 @@ func run(rec *Rec, toCoq bool) outcome {
 }
 
 // perturbations of a credential (single field each)
-var perturbs = []string{"none", "none", "none", "key", "seed", "index", "role", "seats", "proof", "prooflen",
+var perturbs = []string{"none", "none", "key", "key", "key_restake", "seed", "index", "role", "seed_index_role", "seats", "proof", "prooflen",
 	"threshold", "stake", "total", "totalzero", "swaproleindex"}
-var prioPerturbs = []string{"none", "none", "none", "none", "priority_fewer", "priority_more", "priority_random",
-	"priority_single", "seats", "seed", "key", "role", "index", "proof", "totalzero"}
+var prioPerturbs = []string{"none", "none", "none", "priority_fewer", "priority_more", "priority_random",
+	"priority_single", "seats", "seed", "key", "key_restake", "role", "index", "seed_index_role", "proof", "totalzero"}
 
 func runProtocol(rec *Rec, toCoq bool) outcome {
 	var o outcome
@@ -598,6 +598,30 @@ func runProtocol(rec *Rec, toCoq bool) outcome {
 		v2, p2 := sk.Evaluate(m)
 		val, proof, j = common.Hash(v2), p2, 1
 	}
+	// The credential is first verified genuinely by both verifiers IN THIS
+	// PROCESS (a verifier that remembers anything about an accepted proof is
+	// warm when the changed credential arrives), then 0..3 unrelated genuine
+	// verifications follow (distance), then the same proof bytes are presented
+	// with one field changed.
+	if !panicked && total.Sign() != 0 {
+		c1 := callVerify(pk, seed, rec.Index, rec.Role, proof, j, th, stake, total)
+		c2 := callVerifyPrio(pk, seed, rec.Index, rec.Role, proof, ucon.VrfComputePriority(val, j), j, th, stake, total)
+		if (j > 0) != (c1 == 0) {
+			o.what = fmt.Sprintf("genuine credential with %d seats: verdict %d", j, c1)
+		} else if c2 != 0 {
+			o.what = fmt.Sprintf("genuine priority rejected (code %d)", c2)
+		}
+		for d := int64(0); d < rec.PArg%4; d++ {
+			osk, opk := keyOf(fmt.Sprintf("%064x", 100+d+rec.PArg%7))
+			oseed := common.BigToHash(keccakInt([]byte(fmt.Sprint(rec.PArg, d))))
+			ov, op, oj, opan := callSortition(osk, oseed, rec.Index+uint32(d), rec.Role, th, stake, total)
+			if !opan {
+				callVerify(opk, oseed, rec.Index+uint32(d), rec.Role, op, oj, th, stake, total)
+				callVerifyPrio(opk, oseed, rec.Index+uint32(d), rec.Role, op, ucon.VrfComputePriority(ov, oj), oj, th, stake, total)
+			}
+		}
+	}
+	warmWhat := o.what
 	// the credential (pk, seed, index, role, proof, j) ; now perturb one field
 	vpk, vseed, vindex, vrole, vproof, vsub, vth, vstake, vtotal := pk, seed, rec.Index, rec.Role, append([]byte{}, proof...), j, th, stake, total
 	prio := ucon.VrfComputePriority(val, j)
@@ -606,6 +630,23 @@ func runProtocol(rec *Rec, toCoq bool) outcome {
 	switch rec.Perturb {
 	case "key":
 		_, vpk = keyOf(fmt.Sprintf("%064x", rec.PArg+2))
+		mustReject = true
+	case "key_restake":
+		// another validator (other key, other stake) presents the proof; the seat
+		// count is re-computed from the proof's real output for that stake, so
+		// only the proof binding stands between the forgery and acceptance
+		_, vpk = keyOf(fmt.Sprintf("%064x", rec.PArg+2))
+		vstake = big.NewInt(rec.Stake + 1 + rec.PArg%(rec.Stake+1))
+		if thB.Cmp(total) <= 0 && total.Sign() != 0 {
+			if js, _, _, ok := quantile(targetOf(hInt(val)), vstake.Int64(), thB, total, maxOracleSteps); ok {
+				vsub = uint32(js)
+			}
+		}
+		mustReject = true
+	case "seed_index_role":
+		vseed[rec.PArg%32] ^= 1 << uint(rec.PArg%8)
+		vindex += uint32(1 + rec.PArg%3)
+		vrole += uint32(1 + rec.PArg%5)
 		mustReject = true
 	case "seed":
 		vseed[rec.PArg%32] ^= 1 << uint(rec.PArg%8)
@@ -656,8 +697,11 @@ func runProtocol(rec *Rec, toCoq bool) outcome {
 	case "priority_single":
 		vprio = common.BigToHash(keccakInt(append(append([]byte{}, val[:]...), minBE(rec.PArg%int64(j+1))...)))
 	}
+	if rec.Perturb == "key_restake" {
+		vprio = ucon.VrfComputePriority(val, vsub)
+	}
 	vm := ucon.MakeM(vseed, vrole, vindex)
-	pth, perr := vpk.ProofToHash(vm, vproof)
+	pth, perr := vpk.ProofToHash(vm, vproof) // direct library call: does the proof verify for exactly this key and message?
 	vt := [][2]interface{}{}
 	if perr == nil {
 		vt = append(vt, [2]interface{}{vm, new(big.Int).SetBytes(pth[:])})
@@ -682,6 +726,8 @@ func runProtocol(rec *Rec, toCoq bool) outcome {
 			if vthB.Cmp(vtotal) <= 0 {
 				o.what = "VrfVerifySortition panics although committee <= total"
 			}
+		case perr != nil && code != 1 && code != 2:
+			o.what = fmt.Sprintf("VrfVerifySortition passed the proof check (verdict %d) although the proof does not verify for this key and MakeM(seed, step, index) (changed: %s)", code, rec.Perturb)
 		case code == 0 && mustReject:
 			o.what = "credential accepted after changing its " + rec.Perturb
 		case code == 0 && vsub == 0:
@@ -690,6 +736,9 @@ func runProtocol(rec *Rec, toCoq bool) outcome {
 			o.what = fmt.Sprintf("credential accepted for %d seats, the quantile is %d", vsub, expectJ)
 		case code != 0 && rec.Perturb == "none" && j > 0 && !panicked && total.Sign() != 0:
 			o.what = fmt.Sprintf("untouched credential with %d seats rejected (code %d)", j, code)
+		}
+		if o.what == "" {
+			o.what = warmWhat
 		}
 		if toCoq && affordable {
 			o.coq = fmt.Sprintf("CVerify %s %d %d %d %d %s %s %s %d", zb(hInt(vseed)), vindex, vrole, vsub, vth, zb(vstake), zb(vtotal), tblCoq(vt), code)
@@ -706,6 +755,8 @@ func runProtocol(rec *Rec, toCoq bool) outcome {
 		if vthB.Cmp(vtotal) <= 0 {
 			o.what = "VrfVerifyPriority panics although committee <= total"
 		}
+	case perr != nil && code != 1 && code != 2:
+		o.what = fmt.Sprintf("VrfVerifyPriority passed the proof check (verdict %d) although the proof does not verify for this key and MakeM(seed, step, index) (changed: %s)", code, rec.Perturb)
 	case code == 0 && mustReject:
 		o.what = "priority accepted after changing the credential's " + rec.Perturb
 	case code == 0 && perr == nil && hInt(vprio).Cmp(prioSpec(common.Hash(pth), int64(vsub))) != 0:
@@ -714,6 +765,9 @@ func runProtocol(rec *Rec, toCoq bool) outcome {
 		o.what = fmt.Sprintf("priority accepted for %d seats, the quantile is %d", vsub, expectJ)
 	case code != 0 && rec.Perturb == "none" && !panicked && total.Sign() != 0:
 		o.what = fmt.Sprintf("untouched priority rejected (code %d)", code)
+	}
+	if o.what == "" {
+		o.what = warmWhat
 	}
 	if toCoq && affordable {
 		var kt [][2]interface{}
